@@ -4,4 +4,5 @@ Require Import ExtrOcamlBasic.
 Extraction Language OCaml.
 Extraction "../ocaml/c20/model.ml" sys_new step sp_new sp_step obs_ok proc_resets
   w guards nextg pend rcap rmaxev rorder reactor dq id_count a2d d2a counter de_idx de_period
-  s_cap s_gl s_next s_pend N.of_nat N.to_nat.
+  s_cap s_gl s_next s_pend N.of_nat N.to_nat
+  tdq_new t_add t_peek t_report t_call t_missed t_spec_missed t_prev t_att t_set_prev.
